@@ -86,6 +86,71 @@ func H_C16_Once() {
 	})
 }
 
+// H_C16_Once2: as H_C16_Once with two callers (quick tier).
+func H_C16_Once2() {
+	errFirst := errors.New("first call fails")
+	failFirst := vrt.Bool("fail-first")
+	calls, active, succeeded := 0, 0, 0
+	once := promise.NewOnce(func(ctx context.Context) (int, error) {
+		var n int
+		vrt.Atomic(func() {
+			calls++
+			n = calls
+			active++
+			vrt.Assert(active == 1, "once-function-overlap")
+			vrt.Assert(succeeded == 0, "once-called-again-after-success")
+		})
+		var err error
+		if failFirst && n == 1 {
+			err = errFirst
+		}
+		vrt.Atomic(func() {
+			active--
+			if err == nil {
+				succeeded++
+			}
+		})
+		return 100 + n, err
+	})
+	var val int
+	first := func(v int) {
+		vrt.Atomic(func() {
+			if val == 0 {
+				val = v
+			}
+			vrt.Assert(val == v, "once-callers-disagree")
+		})
+	}
+	vrt.Go("c1", func() {
+		ctx, cancel := context.WithCancel(context.Background())
+		cancelled := vrt.Bool("cancel-c1")
+		if cancelled {
+			vrt.CancelAnytime(cancel)
+		}
+		v, err := once.Resolve(ctx)
+		if err == context.Canceled {
+			vrt.Assert(cancelled, "once-canceled-without-cancel")
+			vrt.Cover("once-caller-cancelled")
+			return
+		}
+		if err != nil {
+			vrt.Assert(err == errFirst && failFirst, "once-error-identity")
+			return
+		}
+		first(v)
+	})
+	vrt.Go("c2", func() {
+		v, err := once.Resolve(context.Background())
+		if err != nil {
+			vrt.Assert(err == errFirst && failFirst, "once-error-identity")
+			// an error is not kept: a later Resolve calls the function again
+			v, err = once.Resolve(context.Background())
+			vrt.Assert(err == nil, "once-retry-after-error")
+		}
+		first(v)
+	})
+}
+
 // H_C16_Memo: three concurrent callers of a memoized function: it is called exactly once and
 // everybody receives that call's result (value and error).
 func H_C16_Memo() {
